@@ -7,7 +7,9 @@
 (*           script results, exposed callables; (I) ALL interleavings of set / get / eval  *)
 (*           on two names of exactly L events (shorter ones are their prefixes); (C) ALL   *)
 (*           call histories: one function value made from the exposed callable, invoked    *)
-(*           L times through every invocation form.                                        *)
+(*           L times through every invocation form; (P) ALL property histories: one object *)
+(*           whose properties are assigned / redefined as data or accessor / deleted in    *)
+(*           every sequence of L steps, then converted.                                    *)
 (*   Judge : every recorded trace is folded through the store of copies, event by event;   *)
 (*           a mismatch records clause + index, adopts the observation and keeps going.    *)
 EXTENDS Boundary, Json, IOUtils
@@ -223,6 +225,51 @@ EnumCNext == /\ ph = "enumC" /\ ph' = "enumC2"
              /\ UNCHANGED <<ehist, est, eheld, rec_i>>
 EnumCEmit == ph # "enumC2" \/ (PrintT(ToJson([t |-> cur])) /\ FALSE)
 
+\* ---------------- Enum (P): property histories of one object ----------------------------------------
+\* "plain objects to dicts of own DATA properties" quantifies over objects, and which of an object's properties are data
+\* properties is the outcome of a HISTORY: a name may be created by the literal / by Context.set / by Object.create, assigned,
+\* redefined as a data property, redefined as an accessor (getter only, setter only, both; Object.defineProperty or
+\* Object.defineProperties), deleted and created again.  ONE object (held by a name, or nested in the array held by the name)
+\* goes through ALL sequences of exactly L such steps on a name that starts as a data property and on a name that does not
+\* exist; the conversion is then observed by get / eval, with the aliasing probes.  The value written by step n carries n.
+\* Descriptors always say enumerable / configurable (/ writable): the engine documents no attributes, ECMA-262 defaults to
+\* false, so only the fully permissive descriptor means the same in both.
+EDefProps(nm, path, steps) == [op |-> "defprops", nm |-> nm, path |-> path, steps |-> steps]
+ECreate(nm, wrap, descs)   == [op |-> "evalcreate", nm |-> nm, wrap |-> wrap, descs |-> descs]
+PStep(act, via, n, v) == [act |-> act, via |-> via, n |-> n, v |-> v]
+PActs == {"assign", "delete", "data", "get", "set", "getset"}
+DefineActs == {"data", "get", "set", "getset"}
+AccActs == {"get", "set", "getset"}
+PVias == {"one", "many"}                       \* Object.defineProperty / Object.defineProperties
+PActVias == {<<a, "one">> : a \in PActs} \cup {<<a, "many">> : a \in DefineActs}
+PNames == {U("x"), U("z")}                     \* x: a data property of the base object; z: not a property of it
+PValAt(n) == VArr(<<VInt(n), VObj(<<OP(U("k"), VInt(n))>>)>>)
+RECURSIVE PHists(_)
+PHists(n) == IF n = 0 THEN {<<>>}
+             ELSE {Append(hh, PStep(av[1], av[2], pn, PValAt(n))) : hh \in PHists(n - 1), av \in PActVias, pn \in PNames}
+PBasePy == D(<<KV(PyStr(U("x")), PySmall(1)), KV(PyStr(U("y")), PyList(<<PySmall(2)>>))>>)
+PBaseJs == VObj(<<OP(U("x"), VInt(1)), OP(U("y"), VArr(<<VInt(2)>>))>>)
+PBaseDescs == <<PStep("data", "many", U("x"), VInt(1)), PStep("data", "many", U("y"), VArr(<<VInt(2)>>)), PStep("get", "many", U("w"), Undef)>>
+PBases == {"pyset", "lit", "create"}           \* where the object comes from: Context.set(dict) / a literal / Object.create(proto, descriptors)
+PPaths == {"top", "first"}                     \* the object is the value of the name / the first element of the array the name holds
+PBaseEvent(base, path) ==
+  CASE base = "pyset"  -> ESet("a", IF path = "top" THEN PBasePy ELSE PyList(<<PBasePy>>))
+    [] base = "lit"    -> EEvalSet("a", IF path = "top" THEN PBaseJs ELSE VArr(<<PBaseJs>>))
+    [] base = "create" -> ECreate("a", path = "first", PBaseDescs)
+PTrace(base, path, hh) == <<PBaseEvent(base, path), EDefProps("a", path, hh), EGet("a"), EName("a"), EMutRet("a"), EGet("a"), EName("a")>>
+\* quick: a sub-grid of (base, path) that still contains every base and every path; thorough: the full product
+PGrid == IF Quick THEN {<<"pyset", "top">>, <<"lit", "first">>, <<"create", "top">>, <<"lit", "top">>} ELSE PBases \X PPaths
+ASSUME /\ PGrid \subseteq PBases \X PPaths                                   \* coverage law of the sub-grid
+       /\ {g[1] : g \in PGrid} = PBases /\ {g[2] : g \in PGrid} = PPaths
+       /\ {av[1] : av \in PActVias} = PActs /\ \A a \in DefineActs : \A via \in PVias : <<a, via>> \in PActVias
+       /\ \E d \in 1..Len(PBaseDescs) : PBaseDescs[d].act \in AccActs
+EnumPInit == /\ ph = "enumP" /\ cur \in {[b |-> g[1], pa |-> g[2], s1 |-> s1] : g \in PGrid, s1 \in PHists(1)}
+             /\ ehist = <<>> /\ est = <<>> /\ eheld = <<>> /\ rec_i = 0
+EnumPNext == /\ ph = "enumP" /\ ph' = "enumP2"
+             /\ \E hh \in {q \in PHists(L) : q[1] = cur.s1[1]} : cur' = PTrace(cur.b, cur.pa, hh)
+             /\ UNCHANGED <<ehist, est, eheld, rec_i>>
+EnumPEmit == ph # "enumP2" \/ (PrintT(ToJson([t |-> cur])) /\ FALSE)
+
 \* ---------------- Enum (I): all interleavings on two names ----------------------------------------
 \* the value written by event number n carries n; containers are nested so that shallow copies show
 ValAt(n) == IF n % 2 = 1 THEN PyList(<<PySmall(n), PyList(<<PySmall(n)>>)>>)
@@ -286,6 +333,31 @@ SeqGotOK(ev, ks) ==
 SeqSupported(ev) == /\ ev.mk \in {"direct", "bind", "bindbind"} /\ Len(ev.rets) >= 1
                     /\ \A n \in 1..Len(ev.inv) : ev.inv[n].form \in InvForms
 
+\* property histories: the object's own data properties after a sequence of steps.  An accessor of that name takes an
+\* assignment (the setter runs, or the write is refused / ignored: no data property either way); a data descriptor makes a
+\* data property whatever was there; an accessor descriptor (any of get / set / both) makes the name an accessor whatever
+\* was there; delete removes either kind.
+ObjDel(p, n) == SelectSeq(p, LAMBDA q : q.n # n)
+PropStep(s, stp) ==
+  CASE stp.act = "assign" -> IF stp.n \in s.acc THEN s ELSE [p |-> ObjSet(s.p, stp.n, stp.v), acc |-> s.acc]
+    [] stp.act = "data"   -> [p |-> ObjSet(s.p, stp.n, stp.v), acc |-> s.acc \ {stp.n}]
+    [] stp.act \in AccActs -> [p |-> ObjDel(s.p, stp.n), acc |-> s.acc \cup {stp.n}]
+    [] stp.act = "delete" -> [p |-> ObjDel(s.p, stp.n), acc |-> s.acc \ {stp.n}]
+RECURSIVE PropRun(_, _, _)
+PropRun(s, steps, n) == IF n > Len(steps) THEN s ELSE PropRun(PropStep(s, steps[n]), steps, n + 1)
+StepsSupported(steps) == \A n \in 1..Len(steps) : steps[n].act \in PActs /\ steps[n].via \in PVias /\ (steps[n].via = "many" => steps[n].act \in DefineActs)
+PTargetOK(st, nm, path) == IF path = "top" THEN st[nm].k = "obj"
+                           ELSE path = "first" /\ st[nm].k = "arr" /\ Len(st[nm].e) >= 1 /\ st[nm].e[1].k = "obj"
+DefPropsStore(st, ev) ==
+  LET tgt == IF ev.path = "top" THEN st[ev.nm] ELSE st[ev.nm].e[1]
+      obj == VObj(PropRun([p |-> tgt.p, acc |-> {}], ev.steps, 1).p)
+  IN [st EXCEPT ![ev.nm] = IF ev.path = "top" THEN obj ELSE VArr(<<obj>> \o Tail(st[ev.nm].e))]
+DescsSupported(descs) == /\ \A n \in 1..Len(descs) : descs[n].act \in DefineActs
+                         /\ \A n \in 1..Len(descs) : \A m \in 1..Len(descs) : n # m => descs[n].n # descs[m].n
+CreateStore(st, ev) ==
+  LET obj == VObj(PropRun([p |-> <<>>, acc |-> {}], ev.descs, 1).p)
+  IN [st EXCEPT ![ev.nm] = IF ev.wrap THEN VArr(<<obj>>) ELSE obj]
+
 \* one event: [st (store after), good, clause, exp]
 R(st, good, clause, exp) == [st |-> st, good |-> good, clause |-> clause, exp |-> exp]
 ValueOK(exp, ev) == ev.o = "value" /\ EqPy(exp, ev.out)
@@ -308,6 +380,12 @@ JStep(ev, st, ks) ==
          IN IF ev.o # "value" THEN R(st, FALSE, "call-failed", PyNone)
             ELSE IF ~CallsOK(exp, ev.calls) THEN R(st, FALSE, "call-arguments", PyNone)
             ELSE R(st, GotOK(ev.form, Len(ev.args), ev.ret, ev.got, ks), "call-return", PyNone)
+    [] ev.op = "defprops" ->
+         IF ~(StepsSupported(ev.steps) /\ PTargetOK(st, ev.nm, ev.path)) THEN R(st, FALSE, "unsupported", PyNone)
+         ELSE R(DefPropsStore(st, ev), ev.o = "value", "defprops-failed", PyNone)
+    [] ev.op = "evalcreate" ->
+         IF ~DescsSupported(ev.descs) THEN R(st, FALSE, "unsupported", PyNone)
+         ELSE R(CreateStore(st, ev), ev.o = "value", "evalcreate-failed", PyNone)
     [] ev.op = "callseq" ->
          IF ~SeqSupported(ev) THEN R(st, FALSE, "unsupported", PyNone)
          ELSE IF ev.o # "value" THEN R(st, FALSE, "callseq-failed", PyNone)
